@@ -130,14 +130,15 @@ Proof.
 Qed.
 
 Lemma argmaxb_sound pb x a : argmaxb pb x a = true ->
-  length a = nsrc pb /\ forall i, (i < nsrc pb)%nat -> is_argmax x (nsnk pb) i (nth i a 0%nat).
+  length a = nsrc pb /\
+  forall i, (i < nsrc pb)%nat ->
+    (nth i a 0%nat < nsnk pb)%nat /\ forall k, (k < nsnk pb)%nat -> get2 x k i <= get2 x (nth i a 0%nat) i.
 Proof.
   unfold argmaxb. rewrite andb_true_iff, forallb_forall. intros [Hl H]. split; [apply Nat.eqb_eq, Hl|].
   intros i Hi. specialize (H i). unfold srcs_of in H. rewrite in_seq in H. specialize (H ltac:(lia)).
-  cbn zeta in H. rewrite !andb_true_iff, !forallb_forall in H. destruct H as [[H1 H2] H3].
-  split; [apply Nat.ltb_lt, H1|]. split.
-  - intros k Hk. apply Z.leb_le, H2. unfold snks_of. rewrite in_seq. lia.
-  - intros k Hk. apply Z.ltb_lt, H3. rewrite in_seq. lia.
+  cbn zeta in H. rewrite !andb_true_iff, !forallb_forall in H. destruct H as [H1 H2].
+  split; [apply Nat.ltb_lt, H1|].
+  intros k Hk. apply Z.leb_le, H2. unfold snks_of. rewrite in_seq. lia.
 Qed.
 
 (* ================================================================== Part 3: increaseCapacity *)
